@@ -28,5 +28,7 @@ MetricsOf(s) ==
    path |-> s.path,
    statime_port_state |-> [p \in Ports |-> PortStateCode(s.pst[p])],
    p2p |-> [p \in Ports |-> PCfg[p].p2p],
+   \* whether the port has measured a (peer / mean) delay: states that differ only in this are different as far as the metrics go
+   has_md |-> [p \in Ports |-> ~IsNoneV(s.md[p])],
    has_slave |-> \E p \in Ports : s.pst[p] = "S"]
 =============================================================================
